@@ -282,7 +282,7 @@ func c10Run(rep *c10Rec, c c10Case) (outcome string, ok bool) {
 
 func TestVerifC10Agg(t *testing.T) {
 	rep := mc.NewReport("C10")
-	rep.Rule = "agent/API part (first run): every sharding configuration (5 strategies x shard(fixed key) x shard_num x shard2 x shard2_timestamp) x shard count x by-metric count x metric id x tag variant x timestamp through the real Agent.shard/sharding.Shard and MetricMetaValue.Sharded/Shard; every (shard count, shard, alive mask over all replicas, second) through the real getShardReplicaForSecond. Aggregator part: every (replica key, recent window, oldest second mod 3, sent second - oldest, historic, spare) through the real handleSendSourceBucket3. Non-trivial = configuration with a valid agent shard / second whose primary replica is dead / request that the aggregator accepted"
+	rep.Rule = "agent/API part (first run): every sharding configuration (5 strategies x shard(fixed key) x shard_num x shard2 x shard2_timestamp) x shard count x by-metric count x metric id x tag variant x timestamp through the real Agent.shard/sharding.Shard and MetricMetaValue.Sharded/Shard; every (shard count, shard, alive mask over all replicas, second) through the real getShardReplicaForSecond. Aggregator part: every (replica key, recent window, oldest second mod 3, sent second - oldest, historic, spare) through the real handleSendSourceBucket3 of a fresh aggregator; and every history (BFS, bounded depth) of goTicker iterations (clock step x remote short-window config delivered through the journal) on one living aggregator (real updateConfigRemotelyExperimental + advanceRecentBuckets), with every (sent second around the window, historic, spare) sent through the real handler after every iteration. Non-trivial = configuration with a valid agent shard / second whose primary replica is dead / request that the aggregator accepted"
 	shortWindows := []int{3, 4, 5} // config.go: 3 <= short-window <= MaxShortWindow
 	historicWindows := []uint{6, 20}
 	if mc.Thorough() {
@@ -370,6 +370,9 @@ func TestVerifC10Agg(t *testing.T) {
 	}
 	rep.AddCounts(execs, execs, execs, accepted)
 	rep.Parts["aggregator"] = map[string]any{"requests": execs, "accepted": accepted, "outcomes": outcomes}
+	if stop.Load() == 0 {
+		c10Window(rep) // second family: histories of ticks, clock steps and remote-config changes on one living aggregator (verif_c10_window_test.go)
+	}
 	if err := rep.Write(); err != nil {
 		t.Fatal(err)
 	}
